@@ -280,6 +280,13 @@ func roundtripPlan(sig, tier string) []Unit {
 			}
 		}
 	}
+	{
+		other := map[string]string{"traces": "logs", "logs": "metrics", "metrics": "traces"}[sig]
+		units = append(units, Unit{Opts: def, Mon: mon, Tag: "long-evictions", History: longEvictionHistory(sig, other, 20)})
+	}
+	for _, h := range emptyRequestHistories(sig) {
+		units = append(units, Unit{Opts: def, Mon: mon, Tag: "empty-requests", History: h})
+	}
 	// one key, a different value type under each parent
 	{
 		ml := mixLetters(sig, 1)
@@ -466,6 +473,36 @@ func sharedAttrHistories() [][]Letter {
 			}
 		}
 	}
+	return out
+}
+
+// longEvictionHistory: two signals alternate with large, differently typed
+// resource attributes, so the consumer replaces its RESOURCE_ATTRS reader (a
+// record of several MB) on every batch: over the stream it obtains several times
+// the default 70 MiB, which it can only do if it gives replaced readers back.
+func longEvictionHistory(x, y string, rounds int) []Letter {
+	var h []Letter
+	for i := 0; i < rounds; i++ {
+		h = append(h, Letter{Sig: x, Big: &Big{Kind: "resattrs", N: 20000}}, Letter{Sig: y, Big: &Big{Kind: "resattrs", N: 20000}})
+	}
+	return h
+}
+
+// emptyRequestHistories: requests without any record (no resource at all, a
+// resource without scopes, a scope without records) before, between and after
+// ordinary batches.
+func emptyRequestHistories(sig string) [][]Letter {
+	a := historyAlphabet(sig, false)
+	e0 := Letter{Sig: sig, Name: sig + ":empty"}
+	e1 := Letter{Sig: sig, Groups: []Group{{R: 1}}}
+	e2 := one(sig, 1, 1)
+	var out [][]Letter
+	for _, x := range a[:6] {
+		for _, e := range []Letter{e0, e1, e2} {
+			out = append(out, []Letter{x, e, x}, []Letter{e, x, e, x}, []Letter{x, e, e, a[1]})
+		}
+	}
+	out = append(out, []Letter{e0}, []Letter{e1}, []Letter{e2}, []Letter{e0, e1, e2, e0})
 	return out
 }
 
@@ -684,6 +721,9 @@ func nopanicPlan(tier string) []Unit {
 				units = append(units, Unit{Opts: o, Mon: mon, Tag: "allattrs-u8", History: h})
 			}
 		}
+		for _, h := range emptyRequestHistories(sig) {
+			units = append(units, Unit{Opts: def, Mon: mon, Tag: "empty-requests", History: h})
+		}
 		// id-width edges: refused with an error, never a panic; the stream stays usable
 		after := one(sig, 1, 1, 1, 0)
 		kinds := []string{"items"}
@@ -702,6 +742,11 @@ func nopanicPlan(tier string) []Unit {
 		}
 		if !thorough {
 			units = append(units, Unit{Opts: def, Mon: mon, Tag: "idwidth", History: []Letter{{Sig: sig, Big: &Big{Kind: "resources", N: 65537}}, after, after}})
+		}
+		// every record has a non-empty attribute map, but two of them hold only entries the encoder skips
+		for _, n := range []int{65537, 65540} {
+			units = append(units, Unit{Opts: def, Mon: mon, Tag: "idwidth-skipattrs", History: []Letter{{Sig: sig, Big: &Big{Kind: "items-skipattrs", N: n}}, after, after}},
+				Unit{Opts: def, Mon: mon, Tag: "idwidth-skipattrs", History: []Letter{after, one(sig, 1, 1, 1), {Sig: sig, Big: &Big{Kind: "items-skipattrs", N: n}}, after}})
 		}
 		// a refused batch in the middle of a healthy stream
 		for _, k := range []string{"items", "resources", "scopes"} {
@@ -741,6 +786,11 @@ func framingPlan(tier string) []Unit {
 		}
 		for _, h := range sharedAttrHistories() {
 			units = append(units, Unit{Opts: def, Mon: mon, Tag: "mixed-shared-attrs", History: h})
+		}
+		for _, sig := range sigs() {
+			for _, h := range emptyRequestHistories(sig) {
+				units = append(units, Unit{Opts: def, Mon: mon, Tag: "empty-requests", History: h})
+			}
 		}
 		// one refused allocation inside the IPC write of any record of any batch, then two more batches
 		for _, sig := range sigs() {
@@ -884,6 +934,9 @@ func allocPlan(tier string) []Unit {
 		alpha := historyAlphabet(sig, false)
 		for _, h := range histories(alpha, 2) {
 			units = append(units, Unit{Opts: DefaultOptions(), Mon: mon, Tag: "H2-" + sig, History: h})
+		}
+		for _, h := range emptyRequestHistories(sig) {
+			units = append(units, Unit{Opts: DefaultOptions(), Mon: mon, Tag: "empty-requests-" + sig, History: h})
 		}
 		for _, o := range dictConfigs() {
 			if !thorough && o.Dict != "u8" && o.Dict != "none" {
